@@ -109,6 +109,9 @@ def _worker(args):
         out['sched_steps'] += res['sched_steps']
         if len(out['samples']) < 2 and nontrivial:
             out['samples'].append(scenario)
+        if res['status'] == 'timeout':
+            out['timeouts'] = out.get('timeouts', 0) + 1
+            out.setdefault('timeout_indices', []).append(i)
         if res['status'] == 'harness_error':
             out['harness_errors'].append(
                 {'index': i, 'where': 'execute', 'detail': res['detail'],
@@ -275,6 +278,9 @@ def run_check(prop, tier, verif_seed, n_runs=None, wall=None, procs=None,
                         agg['extra'][k] = agg['extra'].get(k, 0) + v
                 agg['sim_time'] += r['sim_time']
                 agg['sched_steps'] += r['sched_steps']
+                agg['timeouts'] = agg.get('timeouts', 0) + r.get('timeouts', 0)
+                agg.setdefault('timeout_indices', []).extend(
+                    r.get('timeout_indices', []))
                 agg['failures'] += r['failures']
                 agg['harness_errors'] += r['harness_errors']
                 if len(agg['samples']) < 3:
@@ -414,6 +420,14 @@ def run_check(prop, tier, verif_seed, n_runs=None, wall=None, procs=None,
             lines.append('HARNESS-ERROR pool: ' + harness_fail)
         if exit_code == 0:
             exit_code = 2
+    if agg.get('timeouts'):
+        lines.append('NOTE: %d runs abandoned by the %ss wall-clock guard '
+                     '(indices %s)' % (agg['timeouts'], os.environ.get(
+                         'DST_RUN_TIMEOUT', '30'),
+                         sorted(agg['timeout_indices'])[:10]))
+        if agg['timeouts'] > max(3, 0.01 * agg['runs']) and exit_code == 0:
+            lines.append('HARNESS-ERROR too many abandoned runs')
+            exit_code = 2
     if agg['runs'] == 0 and exit_code == 0:
         lines.append('HARNESS-ERROR no runs executed')
         exit_code = 2
@@ -459,6 +473,7 @@ def run_check(prop, tier, verif_seed, n_runs=None, wall=None, procs=None,
                     'dst.mp_stub (seam S2)',
                     'OS entropy for seed=None -> dst.rng_seam (seam S3)'],
                 'known_findings_hit': known_hits,
+                'runs_abandoned_by_wall_clock_guard': agg.get('timeouts', 0),
                 'extra': {k: (len(v) if isinstance(v, list) else v)
                           for k, v in agg['extra'].items()},
             },
